@@ -263,7 +263,11 @@ async def execute(gen, ops, w: SockWorld, run: Run, counters=None):
             if o == "fin":
                 tr.peer_eof()
             elif o == "rst":
-                tr.peer_reset()
+                # op[1]: how the dead link shows up on the receive side - a reset (default),
+                # a retransmission / keep-alive time-out, "no route to host"
+                kind = op[1] if len(op) > 1 else None
+                tr.peer_reset({"timeout": TimeoutError(110, "Connection timed out (link)"),
+                               "oserror": OSError(113, "No route to host (link)")}.get(kind))
             elif o == "stall":
                 tr.stall()
             elif o == "unstall":
